@@ -1,7 +1,99 @@
 import Labella.Model.Text
+import Labella.Proofs.TextTex
+/-! # C19 — label text reaches TeX intact: accents become TeX accents, nothing else changes
+
+Property theorems only.  `db` (the Unicode database as far as `uni2tex` consults it) is universally
+quantified: the statements hold for every database, in particular for the running interpreter's. -/
 namespace Labella.C19
 open Labella Labella.Text
 
-theorem placeholder_name0 : int2name 0 = [65] := by decide
+/-- a piece of the output is a (possibly nested) accent command over a plain character, and every command
+is one of the accents of the table -/
+def WellFormed : Tok → Prop
+  | .plain _ => True
+  | .accent m t => isAccent m = true ∧ WellFormed t
+
+/-- the innermost character of a piece -/
+def base : Tok → Nat
+  | .plain c => c
+  | .accent _ t => base t
+
+theorem wellFormed_iff_wf (t : Tok) : WellFormed t ↔ Text.WF t := by
+  induction t with
+  | plain c => simp [WellFormed, Text.WF]
+  | accent m t ih => simp [WellFormed, Text.WF, ih]
+
+/-- conversion is defined for every string and every database (the model is a total function; the
+implementation's exceptions are covered by the correspondence), and only ever produces accent
+commands from the table -/
+theorem only_accent_commands (db : UDB) (s : List Nat) : ∀ t ∈ uni2texToks db s, WellFormed t := by
+  intro t ht
+  exact (wellFormed_iff_wf t).2 (uni2texToks_wf db s t ht)
+
+/-- Reading every accent command back as "base followed by combining mark" reproduces the input, with each
+converted precomposed character replaced by its canonical pair (base, mark) — i.e. the input up to
+canonical equivalence, by the definition of canonical decomposition. -/
+theorem readBack_eq_oneStep (db : UDB) (s : List Nat) :
+    (uni2texToks db s).flatMap readBack = s.flatMap (oneStep db) := by
+  have := foldl_step_readBack db s []
+  simpa [uni2texToks] using this
+
+/-- characters that have no two-element canonical decomposition and are not accent marks are copied -/
+theorem untouched (db : UDB) (s : List Nat)
+    (h : ∀ c ∈ s, db.decomp c = none ∧ isAccent c = false) : uni2tex db s = s := by
+  unfold uni2tex uni2texToks
+  rw [foldl_step_untouched db s [] h]
+  simp [flatMap_render_plain]
+
+/-- no accent mark of the table is an ASCII character … -/
+theorem accents_not_ascii (c : Nat) (h : c < 128) : isAccent c = false := by
+  exact isAccent_lt_false (by omega)
+
+/-- … hence ASCII text (including TeX specials) is left untouched, for every database in which ASCII
+characters have no decomposition (true of Unicode) -/
+theorem ascii_untouched (db : UDB) (s : List Nat) (h : ∀ c ∈ s, c < 128)
+    (hdb : ∀ c, c < 128 → db.decomp c = none) : uni2tex db s = s :=
+  untouched db s (fun c hc => ⟨hdb c (h c hc), accents_not_ascii c (h c hc)⟩)
+
+/-- the number of pieces never exceeds the number of input characters, and each input character that is
+neither converted nor a mark yields exactly itself: the output differs from the input only inside accent
+commands -/
+theorem plain_pieces_are_input_chars (db : UDB) (s : List Nat) :
+    ∀ t ∈ uni2texToks db s, ∀ c, t = Tok.plain c → c ∈ s := by
+  intro t ht c hc
+  subst hc
+  unfold uni2texToks at ht
+  rw [List.mem_reverse] at ht
+  rcases foldl_step_plain db s [] c ht with h | h
+  · exact h
+  · simp at h
+
+/-- String-level read-back: parsing `\a{…}` commands out of the rendered text gives the same result as the
+token-level read-back, provided no character of the (decomposed) input is a backslash or a brace (TeX
+specials pass through by design, so on such inputs the rendered string is not uniquely parseable and
+only the token-level statement `readBack_eq_oneStep` is claimed). -/
+theorem parseBack_render (db : UDB) (s : List Nat)
+    (h : ∀ c ∈ s.flatMap (oneStep db), c ≠ 92 ∧ c ≠ 123 ∧ c ≠ 125) :
+    parseBack (uni2tex db s) = s.flatMap (oneStep db) := by
+  have hrb := readBack_eq_oneStep db s
+  have hp : ∀ t ∈ uni2texToks db s, Parseable t := by
+    intro t ht
+    refine ⟨uni2texToks_wf db s t ht, fun c hc => ?_⟩
+    have hmem : c ∈ s.flatMap (oneStep db) := by
+      rw [← hrb]; exact List.mem_flatMap.2 ⟨t, ht, hc⟩
+    exact ⟨(h c hmem).1, (h c hmem).2.2⟩
+  have hparse : parsePieces ((uni2tex db s).length + 1) (uni2tex db s)
+      = ((uni2texToks db s).flatMap readBack, []) := by
+    have := parsePieces_render ((uni2tex db s).length + 1) (uni2texToks db s) [] hp (Or.inl rfl)
+      (by simp [uni2tex])
+    simpa [uni2tex] using this
+  unfold parseBack
+  rw [hparse]
+  simpa using hrb
+
+-- non-vacuity: a database with é = e + U+0301 and the mark itself
+def demoDb : UDB := { isMark := fun c => c == 769, decomp := fun c => if c == 233 then some (101, 769) else none }
+example : uni2tex demoDb [233, 97, 769] = [92, 39, 123, 101, 125, 92, 39, 123, 97, 125] := by decide
+example : (uni2texToks demoDb [233, 97, 769]).flatMap readBack = [101, 769, 97, 769] := by decide
 
 end Labella.C19
